@@ -51,7 +51,7 @@ func drawC13(t *rapid.T) c13Scenario {
 	if sc.Stream.Container == "fmp4" && rapid.IntRange(0, 2).Draw(t, "extra") == 0 {
 		n := rapid.IntRange(1, 2).Draw(t, "nextra")
 		for i := 0; i < n; i++ {
-			sc.ExtraCodecs = append(sc.ExtraCodecs, rapid.SampledFrom([]string{"ac3", "mjpeg", "lpcm"}).Draw(t, "xcodec"))
+			sc.ExtraCodecs = append(sc.ExtraCodecs, rapid.SampledFrom([]string{"ac3", "mjpeg", "lpcm", "mpeg4video", "mpeg1video", "mpeg1audio"}).Draw(t, "xcodec"))
 		}
 		sc.ExtraFirst = rapid.Bool().Draw(t, "xfirst")
 	}
@@ -333,6 +333,12 @@ func addExtraTracks(b []byte, extra []string, first bool) []byte {
 			codec = &fmp4.CodecAC3{SampleRate: 48000, ChannelCount: 2, Fscod: 0, Bsid: 8, Bsmod: 0, Acmod: 2, BitRateCode: 7}
 		case "mjpeg":
 			codec = &fmp4.CodecMJPEG{Width: 640, Height: 480}
+		case "mpeg4video":
+			codec = &fmp4.CodecMPEG4Video{Config: []byte{0, 0, 1, 0xb0, 1, 0, 0, 1, 0xb5, 0x89, 0x13}}
+		case "mpeg1video":
+			codec = &fmp4.CodecMPEG1Video{Config: []byte{0, 0, 1, 0xb3, 0x28, 0x01, 0xe0, 0x13, 0xff, 0xff, 0xe0, 0x18}}
+		case "mpeg1audio":
+			codec = &fmp4.CodecMPEG1Audio{SampleRate: 48000, ChannelCount: 2}
 		default:
 			codec = &fmp4.CodecLPCM{BitDepth: 16, SampleRate: 48000, ChannelCount: 2}
 		}
@@ -544,7 +550,7 @@ func execC13(sc c13Scenario) core.Outcome {
 var propC13 = core.Prop[c13Scenario]{
 	ID:       "C13",
 	CrashLog: true,
-	Rule: "a C10 stream with 0-3 mutations applied before serving: arbitrary / hostile bytes as primary or media playlist, playlists truncated, flipped, emptied, without segments, with huge numbers, bad URIs or a MAP without URI; init segments truncated at box boundaries, flipped, replaced by garbage, with >10 tracks, duplicate / shifted ids, no tracks, only unsupported codecs, or extra tracks of codecs gohlslib has no type for (AC-3, MJPEG, LPCM); fMP4 segments with zero / huge durations, huge base times, no leading-track data, unknown / duplicate / swapped track ids, empty truns, truncation; MPEG-TS segments truncated at / inside packets, without PAT/PMT, without the leading PID; " +
+	Rule: "a C10 stream with 0-3 mutations applied before serving: arbitrary / hostile bytes as primary or media playlist, playlists truncated, flipped, emptied, without segments, with huge numbers, bad URIs or a MAP without URI; init segments truncated at box boundaries, flipped, replaced by garbage, with >10 tracks, duplicate / shifted ids, no tracks, only unsupported codecs, or extra tracks of codecs gohlslib has no type for (AC-3, MJPEG, LPCM, MPEG-4/MPEG-1 video, MPEG-1 audio); fMP4 segments with zero / huge durations, huge base times, no leading-track data, unknown / duplicate / swapped track ids, empty truns, truncation; MPEG-TS segments truncated at / inside packets, without PAT/PMT, without the leading PID; " +
 		"oracle: the test process survives (a panic in a client goroutine kills it: the scenario is logged before execution), Wait() yields within 13 s (all playlists end or stop evolving, the media lasts well under a second and the client never paces a unit for more than 10 s; otherwise it is wedged and must at least honour Close), <= 400 requests and < 80% CPU, no track without codec exposed, no goroutine left; non-trivial = the client got past its first request",
 	Draw: drawC13,
 	Exec: execC13,
